@@ -19,6 +19,7 @@
   * C11_witness_raw_inverted / C11_witness_mismatch_accepted   the two selection defects as found
 -/
 import SA.Proofs.DnsHandshake
+import SA.Gen.PkgVars
 namespace SA.DnsHandshake
 
 /-! ### side conditions on the regenerated facts -/
@@ -364,3 +365,15 @@ end SA.DnsHandshake
 #print axioms SA.DnsHandshake.C11_fragment_probe_monotone
 #print axioms SA.DnsHandshake.C11_witness_raw_inverted
 #print axioms SA.DnsHandshake.C11_witness_mismatch_accepted
+
+namespace SA.PkgState
+/-- **no_hidden_process_state**: the models of this property are functions of their arguments and of the objects they are
+    handed; the packages they model keep no package-level variables besides these (regenerated inventory: error
+    sentinels, tables, compiled patterns, the two session time-outs).  A new package-level variable — a counter, a cache, a
+    scratch buffer, a shared map, a registry — would make later calls depend on earlier ones, or concurrent calls on each
+    other, outside anything a per-call comparison of model and code can see. -/
+theorem C11_no_hidden_process_state :
+    Gen.pkgVarNames_dns = ["ConnectionTimeout", "ErrConnectionFailed", "ErrHandshakeNotCompleted", "OldConnectionTimeout"] := by decide
+end SA.PkgState
+
+#print axioms SA.PkgState.C11_no_hidden_process_state
